@@ -153,7 +153,27 @@ func checkC17(p *load.Program, r *kit.Report) {
 					}
 				}
 			}
-			reach := kit.Reach(f, starts, kit.Opts{StopAt: kit.InstrSet(stores...)})
+			// leaving the tip alone where it already is the re-selected branch is the same as storing it
+			afterTrim := kit.Reach(f, kit.After(trim), kit.Opts{})
+			same := kit.FindGuards(f, func(c ssa.Value) (bool, bool) {
+				b, ok := c.(*ssa.BinOp)
+				if !ok || (b.Op != token.EQL && b.Op != token.NEQ) {
+					return false, false
+				}
+				x, y := b.X, b.Y
+				if loadOfField(y, longestF) {
+					x, y = y, x
+				}
+				if !loadOfField(x, longestF) {
+					return false, false
+				}
+				lc := isCallTo(y, H+".Branches.Longest")
+				if lc == nil || !afterTrim.Has(lc) {
+					return false, false
+				}
+				return true, b.Op == token.EQL
+			})
+			reach := kit.Reach(f, starts, kit.Opts{StopAt: kit.InstrSet(stores...), BlockEdge: kit.EdgeSet(edgesOf(same, true)...)})
 			bad2 := ""
 			for _, ret := range kit.Returns(f) {
 				if reach.Has(ret) {
